@@ -52,16 +52,20 @@ Qed.
 Lemma bindF_mono rho p v : le_res (bindF ev bd rho p v) (bindF ev' bd' rho p v).
 Proof.
   destruct p; unfold bindF; cbv zeta beta; mono.
-  - match goal with |- le_res (?F ?a ?b ?c) (?G ?a ?b ?c) =>
+  - try (match goal with |- context [existsb ?f ?l] => generalize (existsb f l); intros hb end).
+    match goal with |- le_res (?F ?a ?b ?c) (?G ?a ?b ?c) =>
       assert (HH : forall b' c', le_res (F a b' c') (G a b' c')); [| apply HH] end.
     induction items as [|it items IH]; intros xs acc; [mono|]. destruct it; mono; try apply IH.
-  - match goal with |- le_res (?F ?a ?b ?c ?d) (?G ?a ?b ?c ?d) =>
+  - try (match goal with |- context [existsb ?f ?l] => generalize (existsb f l); intros hb end).
+    match goal with |- le_res (?F ?a ?b ?c ?d) (?G ?a ?b ?c ?d) =>
       assert (HH : forall b' c' d', le_res (F a b' c' d') (G a b' c' d')); [| apply HH] end.
     induction attrs as [|[n it] attrs IH]; intros remaining extra acc; [mono|]. destruct it; mono; try apply IH.
-  - match goal with |- le_res (?F ?a ?b ?c ?d) (?G ?a ?b ?c ?d) =>
+  - try (match goal with |- context [existsb ?f ?l] => generalize (existsb f l); intros hb end).
+    match goal with |- le_res (?F ?a ?b ?c ?d) (?G ?a ?b ?c ?d) =>
       assert (HH : forall b' c' d', le_res (F a b' c' d') (G a b' c' d')); [| apply HH] end.
     induction entries as [|[ke it] entries IH]; intros remaining extra acc; [mono|]. destruct it; mono; try apply IH.
-  - match goal with |- le_res (?F ?a ?b ?c) (?G ?a ?b ?c) =>
+  - try (match goal with |- context [existsb ?f ?l] => generalize (existsb f l); intros hb end).
+    match goal with |- le_res (?F ?a ?b ?c) (?G ?a ?b ?c) =>
       assert (HH : forall b' c', le_res (F a b' c') (G a b' c')); [| apply HH] end.
     induction items as [|it items IH]; intros remaining binder; [mono|]. destruct it; mono; try apply IH.
 Qed.
